@@ -18,13 +18,15 @@ CLAIM = {
     "text": "Every default method of quill::remapper::{ARemapper,BRemapper} (11) has exactly the documented fallback form "
             "(map_x = map_x_fail ?? identity-with-mapped-descriptor; array-class method refs keep name and descriptor but map the "
             "class), no implementation in the workspace overrides a default method, and the in-tree implementations' *_fail "
-            "methods / super-class providers are the documented table look-ups (7). Mappings::remapper_a / remapper_b fill their "
+            "methods / super-class providers / first_to_second shortcuts are the documented table look-ups (9). Mappings::remapper_a / remapper_b fill their "
             "tables with keys built only from names[from] and values only from names[to]; member descriptors are translated "
             "with remapper_a(first namespace -> from) on the key side and (first namespace -> to) on the value side (14 positions). "
             "BRemapperImpl::map_field_fail / map_method_fail look in the owner's own table first, then iterate the provider's "
             "super-class set in its own order, recursing with unchanged name/descriptor and returning at the first answer, "
-            "else None; Vec<S> returns the first provider's answer. map_desc copies every char, replaces exactly the segment "
-            "between `L` and the next `;` by map_class of it, refuses `L;` and a missing `;`.",
+            "else None; Vec<S> returns the first provider's answer; JarSuperProv::remap keeps every provider/class/super class in "
+            "order with each name through map_class. map_desc copies every char, replaces exactly the segment "
+            "between `L` and the next `;` by map_class of it, refuses `L;` and a missing `;`. Namespace<N> is constructed only in "
+            "quill::tree::names and Namespace::new refuses id >= N.",
     "note": "Not decided: grammar-wide correctness of map_desc on all descriptors (it relies on the validity invariant of the "
             "descriptor newtypes, C18), shadowed members, unmapped intermediate owners (the search stops at an owner that has no "
             "entry), X->Y->X identity. Trusted: rustc HIR/typeck; spec/quill_remapper.json (transcribed from the doc comments).",
@@ -42,6 +44,7 @@ def run(F, R, tier):
     r06_2(q, R, spec)
     r06_3(q, R, spec)
     r06_4(q, R, spec)
+    r06_5(q, R, spec)
     return ("normal forms of the 11 default methods and 7 implementation methods vs. spec/quill_remapper.json; override scan over "
             "all workspace impls of ARemapper/BRemapper; key/value terms of every insert in remapper_a/remapper_b; "
             "return/loop structure of map_field_fail, map_method_fail and Vec<S>::get_super_classes; scanner structure of map_desc")
@@ -89,7 +92,7 @@ def r06_1(F, q, R, spec):
                                                    im["trait"].rsplit("::", 1)[-1]),
                    items == sorted(req), sp=im.get("sp"), expect=sorted(req), got=items,
                    detail="an implementation that overrides a default method bypasses the documented fallback")
-    R.floor(rid, 11 + 7 + 4 + 7)
+    R.floor(rid, 11 + 9 + 4 + 7)
 
 
 # ------------------------------------------------------------------------------------ R06.2
@@ -178,7 +181,40 @@ def r06_2(q, R, spec):
                          "%s side = `%s` namespace" % (side, "from" if side == "key" else "to"))
                     _cmp(R, rid, "remapper_b.%s:%s.desc" % (tbl, side), U.parse(sb[tbl][side + ".desc"], env), t[2][1], mi["sp"],
                          "descriptor of the first namespace translated into the `%s` namespace" % ("from" if side == "key" else "to"))
-    R.floor(rid, 3 + 1 + 3 + 2 * 5)
+    # ---- the member key: stored TupleKey vs requested TupleReq
+    mk = spec["member_key"]
+    for ty in ("TupleKey", "TupleReq"):
+        hb = q.fn("hash", impl_ty="quill::remapper::%s<" % ty)
+        if R.anchor(rid, "impl Hash for %s" % ty, hb) and R.anchor(rid, "%s::hash parameters" % ty, len(hb["params"]) == 2, hb["sp"]):
+            nz = U.Norm(hb, mk["params"])
+            env = U.build_env(mk["params"])
+            calls = [c for c in U.calls_named(hb["body"], "hash")]
+            seq = [nz.term(H.call_args(c)[0]) for c in calls]
+            uncond = all(U.cond_terms(nz, hb["body"], c) == [] and nz.term(H.call_args(c)[1]) == env["other"] for c in calls)
+            R.inst(rid, "member-key:hash:%s" % ty, seq == [U.parse(x, env) for x in mk["hash_sequence"]] and uncond, sp=hb["sp"],
+                   expect=mk["hash_sequence"], got=[U.show(t) for t in seq],
+                   detail="key and request must hash (name, descriptor) identically, otherwise every member lookup misses")
+    eb = q.fn("equivalent", impl_ty="quill::remapper::TupleReq<")
+    if R.anchor(rid, "impl Equivalent<TupleKey> for TupleReq", eb):
+        nz = U.Norm(eb, mk["params"])
+        env = U.build_env(mk["params"])
+        res = U.result_term(nz)
+        ok = False
+        got = None
+        if res is not None:
+            from lib import boolform as B
+            atoms = {}
+            for name in ("eq_name", "eq_desc"):
+                t = U.parse(mk["equivalent"][name], env)
+                atoms[U.show(t)] = name
+                atoms[U.show(("bin", "==", t[3], t[2]))] = name
+            f = _rename(U.to_formula(res, B), atoms)
+            ref = _ref_formula(mk["equivalent"]["formula"])
+            ok, _ = B.equivalent(f, ref)
+            got = B.show(f)
+        R.inst(rid, "member-key:equivalent", ok, sp=eb["sp"], expect="eq_name && eq_desc", got=got,
+               detail="a request matches a stored key iff both the name and the descriptor are equal (overloads are distinct members)")
+    R.floor(rid, 3 + 1 + 3 + 2 * 5 + 3)
 
 
 # ------------------------------------------------------------------------------------ R06.3
@@ -244,6 +280,14 @@ def r06_3(q, R, spec):
                 lconds = U.cond_terms(nz, b["body"], fors[0])
                 R.inst(rid, "%s:supers-searched-when-own-misses" % fn,
                        not any(t == env["own"] and pol for _, t, pol in lconds), sp=fors[0]["sp"], got=U.show_conds(lconds))
+            # ... nor on the owner having a mapping entry at all: an owner without an entry declares nothing itself, so the
+            # member can only come from a super type
+            lconds = U.cond_terms(nz, b["body"], fors[0])
+            R.inst(rid, "%s:supers-searched-when-owner-unmapped" % fn,
+                   not any(t == env["entry"] and pol for _, t, pol in lconds), sp=fors[0]["sp"],
+                   expect="the super-class loop is not nested in `if let Some(class) = self.classes.get(owner)`", got=U.show_conds(lconds),
+                   detail="an owner (or an intermediate super class) that has no entry in the mapping set must still pass the "
+                          "question on to its super classes; otherwise an inherited, renamed member keeps its old name")
         # fallthrough value
         tail = H.peel(b["body"]).get("tail")
         tt = nz.term(tail) if tail else None
@@ -265,7 +309,38 @@ def r06_3(q, R, spec):
         tail = H.peel(b["body"]).get("tail")
         tt = nz.term(tail) if tail else None
         R.inst(rid, "Vec<S>:not-found", tt == U.parse(vs["not_found"], env), sp=b["sp"], expect=vs["not_found"], got=U.show(tt) if tt else None)
-    R.floor(rid, 2 * 8 + 2)
+    # JarSuperProv::remap
+    sp_ = spec["super_prov_remap"]
+    b = q.fn("remap", impl_ty="quill::remapper::JarSuperProv")
+    if R.anchor(rid, "JarSuperProv::remap", b) and R.anchor(rid, "JarSuperProv::remap parameters", len(b["params"]) == 2, b["sp"]):
+        nz = U.Norm(b, sp_["params"])
+        env = U.build_env(sp_["params"], sp_["let"])
+        res = U.result_term(nz)
+        fors = [nz.term(f["iter"]) for f in H.walk(b["body"]) if f.get("k") == "for"]
+        R.inst(rid, "JarSuperProv::remap:loops", fors == [U.parse(x, env) for x in sp_["loops"]], sp=b["sp"], expect=sp_["loops"],
+               got=[U.show(f) for f in fors], detail="every provider / class / super class, in the stored order")
+        ok = False
+        got = []
+        if res and res[0] == "local":
+            pushes = U.mutations_of(b["body"], res[1])
+            if len(pushes) == 1 and pushes[0].get("name") == "push" and U.cond_terms(nz, b["body"], pushes[0]) == []:
+                v = nz.term(pushes[0]["args"][0])
+                if v[0] == "struct" and v[1] == "JarSuperProv" and dict(v[2]).get("super_classes", ("?",))[0] == "local":
+                    ml = dict(v[2])["super_classes"][1]
+                    mins = U.mutations_of(b["body"], ml)
+                    if len(mins) == 1 and mins[0].get("name") == "insert" and U.cond_terms(nz, b["body"], mins[0]) == []:
+                        k, sv = nz.term(mins[0]["args"][0]), nz.term(mins[0]["args"][1])
+                        got.append("map.insert(%s, %s)" % (U.show(k), U.show(sv)))
+                        if sv[0] == "local" and k == U.parse(sp_["map_insert_key"], env):
+                            sins = U.mutations_of(b["body"], sv[1])
+                            if len(sins) == 1 and sins[0].get("name") == "insert" and U.cond_terms(nz, b["body"], sins[0]) == []:
+                                e = nz.term(sins[0]["args"][0])
+                                got.append("set.insert(%s)" % U.show(e))
+                                ok = e == U.parse(sp_["set_insert"], env)
+        R.inst(rid, "JarSuperProv::remap:names-through-map_class", ok, sp=b["sp"],
+               expect=["map.insert(%s, <set>)" % sp_["map_insert_key"], "set.insert(%s)" % sp_["set_insert"]], got=got,
+               detail="class and super-class names are both re-expressed; nothing is skipped")
+    R.floor(rid, 2 * 9 + 2 + 2)
 
 
 # ------------------------------------------------------------------------------------ R06.4
@@ -298,6 +373,7 @@ def r06_4(q, R, spec):
     ok_m = names == Counter({"push_java": 1, "push_java_str": 1, "push": 1})
     R.inst(rid, "output-writes", ok_m, sp=b["sp"], expect="one push_java (copy), one push_java_str (mapped name), one push (`;`)", got=dict(names))
     if not ok_m:
+        R.floor(rid, 7)
         return
     pj = [m for m in muts if m["name"] == "push_java"][0]
     pjs = [m for m in muts if m["name"] == "push_java_str"][0]
@@ -324,3 +400,64 @@ def r06_4(q, R, spec):
            detail="`L;` or a missing `;` makes map_desc return Err instead of guessing")
     R.inst(rid, "result", res == U.parse(sm["result"], env) and not _returns(root), sp=b["sp"])
     R.floor(rid, 7)
+
+
+# ------------------------------------------------------------------------------------ R06.5
+def r06_5(q, R, spec):
+    rid = "R06.5"
+    R.rule(rid, "Namespace<N> values are indices < N: the tuple constructor is used only inside quill::tree::names; Namespace::new "
+                "refuses id >= N")
+    sn = spec["namespace"]
+    adt = q.adts.get("quill::tree::names::Namespace")
+    if not R.anchor(rid, "struct quill::tree::names::Namespace", adt):
+        return
+    vis = adt["variants"][0]["fields"][0].get("vis")
+    sites = []
+    for b in q.bodies:
+        for n in H.walk(b["body"]):
+            c = n.get("callee") or {}
+            if (n.get("k") == "call" and c.get("dk", "").startswith("Ctor") and c.get("adt") == "quill::tree::names::Namespace") or \
+               (n.get("k") == "struct" and n.get("adt") == "quill::tree::names::Namespace"):
+                sites.append((b, n))
+            if n.get("k") in ("assign", "assignop"):
+                l = H.peel(n["l"])
+                if l.get("k") == "field" and l.get("adt") == "quill::tree::names::Namespace":
+                    R.inst(rid, "index-overwritten-in:%s" % b["key"].replace("quill::", "", 1), False, sp=n.get("sp"),
+                           detail="assignment to the index of a Namespace bypasses the bound check")
+    for b, n in sites:
+        fn = b["key"].rsplit("::", 1)[-1]
+        R.inst(rid, "constructed-in:%s" % b["key"].replace("quill::", "", 1), b["key"].startswith(sn["module"]), sp=n.get("sp"),
+               detail="Namespace(..) built outside tree::names bypasses the range discipline")
+    nb = q.fn("new", impl_ty="quill::tree::names::Namespace<")
+    if R.anchor(rid, "fn Namespace::new", nb) and R.anchor(rid, "Namespace::new parameters", len(nb["params"]) == 1, nb["sp"]):
+        nz = U.Norm(nb, sn["new_params"])
+        env = U.build_env(sn["new_params"])
+        ctor = [n for b, n in sites if b is nb]
+        conds = U.cond_terms(nz, nb["body"], ctor[0]) if len(ctor) == 1 else []
+        guard = U.parse(sn["new_refuses"], env)
+        ok = (len(ctor) == 1 and U.result_term(nz) == U.parse(sn["new_result"], env)
+              and any(kind == "if" and not pol and t == guard for kind, t, pol in conds))
+        R.inst(rid, "Namespace::new:bound-check", ok, sp=nb["sp"], expect="!if " + U.show(guard), got=U.show_conds(conds),
+               detail="id >= N is refused before Namespace(id) is built")
+    R.inst(rid, "field-not-public", vis != "Public", sp=adt.get("sp"), got=vis,
+           detail="the index field must not be writable from outside the crate")
+    R.floor(rid, 4)
+
+
+def _rename(f, atoms):
+    if f[0] == "atom":
+        return ("atom", atoms.get(f[1], "?" + f[1]))
+    if f[0] == "const":
+        return f
+    return (f[0],) + tuple(_rename(x, atoms) for x in f[1:])
+
+
+def _ref_formula(j):
+    if isinstance(j, str):
+        return ("atom", j)
+    if j[0] == "not":
+        return ("not", _ref_formula(j[1]))
+    out = _ref_formula(j[1])
+    for x in j[2:]:
+        out = (j[0], out, _ref_formula(x))
+    return out
